@@ -71,6 +71,8 @@ COQ_TY = {"int": "Z", "bytes": "bytes", "bool": "bool", "boollist": "list bool",
           "match2": "(list Z * list Z)",            # re.Match of a pattern with two groups that always take part
           "optmatch2": "option (list Z * list Z)",  # what pattern.match() returns
           "optmatch0": "option unit",               # a match object of which only the truth value is used
+          "list:int": "list Z",
+          "PackInfo": "PackInfo",
           "buffer": "bytes",          # py7zr.io.Buffer: the bytes of its view
           "cipher": "C",              # abstract cipher state (Section variable of the generated file)
           "unit": "unit"}
@@ -150,6 +152,43 @@ WAVE2["calculate_crc32"] = dict(file="helpers.py", qual="calculate_crc32", kind=
 WAVE2["SevenZipFile._sanitize_archive_arcname"] = dict(
     file="py7zr.py", qual="SevenZipFile._sanitize_archive_arcname", kind="method", cls="SevenZipFile",
     coqname="sanitize_archive_arcname", selfargs={}, self_props={}, args={"arcname": "str"}, ret="str", out="ArcName")
+# ---------------------------------------------------------------------------------------------
+# third wave: the header record readers / writers of archiveinfo.py.  An object is a Gallina Record with one field
+# per attribute (CLASSES3: class -> field -> type, in record order); `self.x` is the local variable self_x, initialised
+# from the record when the method is entered; a reader method (kind 'objreader') is
+#   C_m (self : C) (inp : bytes) a.. : res (T * bytes)     (`return self` returns the rebuilt record)
+# a writer method (kind 'objwriter') is  C_m (self : C) a.. : res (C * bytes)  (the object after the call, bytes written).
+# kind 'init': C.__init__ -> the constant C_init : C; kind 'retrieve': `return cls()._read(file)`.
+CLASSES3 = {
+    "PackInfo": {"packpos": "int", "numstreams": "int", "packsizes": "list:int", "packpositions": "list:int",
+                 "crcs": "list:int", "digestdefined": "boollist", "enable_digests": "bool"},
+}
+# exception classes -> the err constructor of Prelude.v the model uses for them (anything else: EOther)
+EXC_ERR = {"Bad7zFile": "EBad7z", "UnsupportedCompressionMethodError": "EUnsupported"}
+# module-level objects of other modules whose attributes are constants: local name -> (module file, instance name)
+CONST_OBJECTS = {"PROPERTY": ("properties.py", "PROPERTY")}
+
+WAVE2["read_crcs"] = dict(file="archiveinfo.py", qual="read_crcs", kind="reader", args={"count": "int"}, ret="list:int",
+                          out="ArchiveinfoRecords")
+WAVE2["write_crcs"] = dict(file="archiveinfo.py", qual="write_crcs", kind="writer", args={"crcs": "list:int"}, ret=None,
+                           out="ArchiveinfoRecords")
+WAVE2["read_byte"] = dict(file="archiveinfo.py", qual="read_byte", kind="reader", args={}, ret="int", out="ArchiveinfoRecords")
+WAVE2["write_bytes"] = dict(file="archiveinfo.py", qual="write_bytes", kind="writer", args={"data": "bytes"}, ret=None,
+                            out="ArchiveinfoRecords")
+WAVE2["write_byte"] = dict(file="archiveinfo.py", qual="write_byte", kind="writer", args={"data": "bytes"}, ret=None,
+                           out="ArchiveinfoRecords")
+WAVE2["PackInfo.__init__"] = dict(file="archiveinfo.py", qual="PackInfo.__init__", kind="init", cls="PackInfo",
+                                  coqname="PackInfo_init", args={}, ret="PackInfo", out="ArchiveinfoRecords")
+WAVE2["PackInfo._read"] = dict(file="archiveinfo.py", qual="PackInfo._read", kind="objreader", cls="PackInfo",
+                               coqname="PackInfo_read", args={}, ret="self", out="ArchiveinfoRecords")
+WAVE2["PackInfo.retrieve"] = dict(file="archiveinfo.py", qual="PackInfo.retrieve", kind="retrieve", cls="PackInfo",
+                                  coqname="PackInfo_retrieve", args={}, ret="PackInfo", out="ArchiveinfoRecords")
+WAVE2["PackInfo.write"] = dict(file="archiveinfo.py", qual="PackInfo.write", kind="objwriter", cls="PackInfo",
+                               coqname="PackInfo_write", args={}, ret=None, out="ArchiveinfoRecords")
+
+for _k, _v in WAVE2.items():
+    if _v["out"] == "ArchiveinfoRecords":
+        _v["join"] = True     # an `if` whose branches fall through is emitted once, yielding the variables it assigns
 OUT_FILES = {
     # out -> (source description, Require line[, lines opening a Section, line closing it])
     "HelpersPath": ("py7zr/helpers.py", "From P7 Require Import Prelude PyPrims PyStr Path."),
@@ -160,6 +199,8 @@ OUT_FILES = {
                "Section AesBuf.\n(* the cipher object: an abstract state and the two operations the code calls on it *)\n"
                "Variable C : Type.\nVariable enc : C -> bytes -> res (C * bytes).   (* self.cipher.encrypt(data) *)\n"
                "Variable dec : C -> bytes -> res (C * bytes).   (* self.cipher.decrypt(data) *)\n", "End AesBuf."),
+    "ArchiveinfoRecords": ("py7zr/archiveinfo.py (header records)",
+                           "From P7 Require Import Prelude PyPrims PyStr.\nFrom P7gen Require Import ArchiveinfoPrims."),
     "HelpersCrc": ("py7zr/helpers.py (calculate_crc32)", "From P7 Require Import Prelude PyPrims PyStr.",
                    "Section HelpersCrc.\nVariable zcrc32 : bytes -> Z -> Z.   (* zlib.crc32(data, value) *)\n", "End HelpersCrc."),
 }
@@ -176,6 +217,73 @@ STAT_FUNCTIONS = {"S_ISLNK": ("py_S_ISLNK", "bool"), "S_ISSOCK": ("py_S_ISSOCK",
                   "S_ISREG": ("py_S_ISREG", "bool"), "S_IMODE": ("py_S_IMODE", "int"), "S_IFMT": ("py_S_IFMT", "int")}
 
 
+_MODCACHE = {}
+DEFAULT_VALUE = {"int": "0", "bool": "false", "list:int": "[]", "boollist": "[]", "bytes": "[]"}
+
+
+def init_fields(module, cls):
+    """field -> initial value expression (ast) for the `self.f[: T] = e` statements of cls.__init__ (top level only);
+    Refused when __init__ does anything else"""
+    node = find_function(module, cls + ".__init__")
+    if node is None:
+        raise Refused("%s.__init__ not found" % cls)
+    if [a.arg for a in node.args.args] != ["self"] or node.args.vararg or node.args.kwarg or node.args.kwonlyargs:
+        raise Refused("%s.__init__ takes arguments" % cls)
+    out = {}
+    for st in node.body:
+        if isinstance(st, ast.Expr) and isinstance(st.value, ast.Constant) and isinstance(st.value.value, str):
+            continue
+        tg = st.targets[0] if isinstance(st, ast.Assign) and len(st.targets) == 1 else st.target if isinstance(st, ast.AnnAssign) else None
+        if not (isinstance(tg, ast.Attribute) and isinstance(tg.value, ast.Name) and tg.value.id == "self") or st.value is None \
+                or tg.attr in out:
+            raise Refused("%s.__init__: line %d is not `self.field = value`" % (cls, st.lineno))
+        out[tg.attr] = st.value
+    return out
+
+
+def record_text(cls):
+    fields = CLASSES3[cls]
+    return "Record %s := mk%s { %s }." % (cls, cls, "; ".join("%s_%s : %s" % (cls, f, coq_ty(t)) for f, t in fields.items()))
+
+
+def init_text(module, cls, spec):
+    """C_init : the object C() builds.  A field that __init__ does not set gets the default value of its type; the
+    methods translated over the record are checked never to read such a field before assigning it."""
+    fields = CLASSES3[cls]
+    ini = init_fields(module, cls)
+    for f in ini:
+        if f not in fields:
+            raise Refused("%s.__init__ sets %s, which is not a field of the record" % (cls, f))
+    vals = []
+    for f, t in fields.items():
+        if f not in ini:
+            vals.append(DEFAULT_VALUE[t])
+            continue
+        v = ini[f]
+        if isinstance(v, ast.List) and not v.elts and t in ("list:int", "boollist"):
+            vals.append("[]")
+        elif isinstance(v, ast.Constant) and isinstance(v.value, bool) and t == "bool":
+            vals.append("true" if v.value else "false")
+        elif isinstance(v, ast.Constant) and isinstance(v.value, int) and not isinstance(v.value, bool) and t == "int":
+            vals.append(str(v.value) if v.value >= 0 else "(%d)" % v.value)
+        elif isinstance(v, ast.Constant) and isinstance(v.value, bytes) and t == "bytes":
+            vals.append("[" + "; ".join(str(b) for b in v.value) + "]")
+        else:
+            raise Refused("%s.__init__: initial value of %s" % (cls, f))
+    return "%s\nDefinition %s : %s := mk%s %s." % (record_text(cls), spec["coqname"], cls, cls, " ".join(vals))
+
+
+def retrieve_text(module, cls, spec):
+    node = find_function(module, cls + ".retrieve")
+    ok = node is not None and [a.arg for a in node.args.args] == ["cls", "file"] \
+        and len(node.decorator_list) == 1 and ast.unparse(node.decorator_list[0]) == "classmethod"
+    body = [st for st in node.body if not (isinstance(st, ast.Expr) and isinstance(st.value, ast.Constant))] if ok else []
+    ok = ok and len(body) == 1 and isinstance(body[0], ast.Return) and ast.unparse(body[0].value) == "cls()._read(file)"
+    if not ok:
+        raise Refused("%s.retrieve is not `return cls()._read(file)`" % cls)
+    return "Definition %s (inp : bytes) : res (%s * bytes) :=\n  %s_read %s_init inp." % (spec["coqname"], cls, cls, cls)
+
+
 class FnTr:
     def __init__(self, name, node, kind, argtys, retty, module=None, spec=None):
         self.name, self.node, self.kind, self.argtys, self.retty = name, node, kind, argtys, retty
@@ -185,6 +293,8 @@ class FnTr:
         self.module = module    # ast of the module (for module-level constants); None for the first wave
         self.spec = spec or {}
         self.loops = []         # stack of enclosing for-loops: dict(ret=bool)
+        self.io = {"reader": "inp", "objreader": "inp", "writer": "out", "objwriter": "out"}.get(kind)
+        self.fields = CLASSES3.get(self.spec.get("cls"), {}) if kind in ("objreader", "objwriter") else {}
 
     def fresh(self):
         self.tmp += 1
@@ -223,6 +333,8 @@ class FnTr:
                 return [], "None", "nonetype"
             self.refuse(e, "constant")
         if isinstance(e, ast.Name):
+            if e.id == "self" and self.fields and self.kind == "objreader":
+                return [], self.self_record(), "self"
             if e.id not in self.ty:
                 if self.module is not None and e.id in self.local_names():
                     self.refuse(e, "local variable %s may be unbound here" % e.id)
@@ -286,6 +398,8 @@ class FnTr:
             return self.subscript(e)
         if isinstance(e, ast.Call):
             return self.call(e)
+        if isinstance(e, ast.ListComp) and self.module is not None:
+            return self.listcomp(e)
         self.refuse(e, "expression")
 
     # ---------------- second wave helpers ----------------
@@ -360,6 +474,52 @@ class FnTr:
                 other += 1
         return plain >= 1 and other == 0
 
+    def self_record(self):
+        cls = self.spec["cls"]
+        return "(mk%s %s)" % (cls, " ".join("self_" + f for f in self.fields))
+
+    def const_object_attr(self, e):
+        """NAME.X where NAME is imported from another module of the package and is there the single instance of a class
+        whose attribute X is bound once, at class level, to binascii.unhexlify("..") / a bytes or int literal"""
+        name = e.value.id
+        fname, inst = CONST_OBJECTS[name]
+        imp = [st for st in self.module.body if isinstance(st, ast.ImportFrom) and st.level == 0
+               and st.module == "py7zr." + fname[:-3] and any(a.name == inst and (a.asname or a.name) == name for a in st.names)]
+        others = [n for n in ast.walk(self.module) if isinstance(n, ast.Name) and n.id == name and isinstance(n.ctx, (ast.Store, ast.Del))]
+        if len(imp) != 1 or others or name in self.local_names():
+            self.refuse(e, "%s is not the constant object of %s" % (name, fname))
+        key = (self.spec["_repo"], fname)
+        if key not in _MODCACHE:
+            path = os.path.join(self.spec["_repo"], "py7zr", fname)
+            _MODCACHE[key] = ast.parse(open(path, encoding="utf-8").read())
+        mod = _MODCACHE[key]
+        binds = [st for st in ast.walk(mod) if isinstance(st, (ast.Assign, ast.AnnAssign, ast.AugAssign))
+                 and any(isinstance(n, ast.Name) and n.id == inst for t in (st.targets if isinstance(st, ast.Assign) else [st.target])
+                         for n in ast.walk(t))]
+        if len(binds) != 1 or binds[0] not in mod.body or not isinstance(binds[0], ast.Assign) \
+                or not (isinstance(binds[0].value, ast.Call) and isinstance(binds[0].value.func, ast.Name)
+                        and not binds[0].value.args and not binds[0].value.keywords):
+            self.refuse(e, "%s is not bound once to an instance in %s" % (inst, fname))
+        cname = binds[0].value.func.id
+        cls = [n for n in mod.body if isinstance(n, ast.ClassDef) and n.name == cname]
+        if len(cls) != 1 or any(isinstance(n, ast.FunctionDef) for n in cls[0].body):
+            self.refuse(e, "class %s of %s" % (cname, fname))
+        vals = [st for st in ast.walk(cls[0]) if isinstance(st, (ast.Assign, ast.AnnAssign, ast.AugAssign))
+                and any(isinstance(n, ast.Name) and n.id == e.attr for t in (st.targets if isinstance(st, ast.Assign) else [st.target])
+                        for n in ast.walk(t))]
+        setters = [n for n in ast.walk(mod) if isinstance(n, ast.Attribute) and n.attr == e.attr and isinstance(n.ctx, (ast.Store, ast.Del))]
+        if len(vals) != 1 or vals[0] not in cls[0].body or not isinstance(vals[0], ast.Assign) or setters:
+            self.refuse(e, "%s.%s is not a constant" % (name, e.attr))
+        v = vals[0].value
+        if isinstance(v, ast.Call) and ast.unparse(v.func) == "binascii.unhexlify" and len(v.args) == 1 and not v.keywords \
+                and isinstance(v.args[0], ast.Constant) and isinstance(v.args[0].value, str) \
+                and any(isinstance(st, ast.Import) and any(a.name == "binascii" and a.asname is None for a in st.names) for st in mod.body):
+            bs = bytes.fromhex(v.args[0].value)
+            return [], "[" + "; ".join(str(b) for b in bs) + "]", "bytes"
+        if isinstance(v, ast.Constant) and isinstance(v.value, bytes):
+            return [], "[" + "; ".join(str(b) for b in v.value) + "]", "bytes"
+        self.refuse(e, "value of %s.%s" % (name, e.attr))
+
     def dotted(self, e):
         if isinstance(e, ast.Name):
             return e.id
@@ -372,6 +532,12 @@ class FnTr:
         d = self.dotted(e)
         if d in EXTERNAL_CONSTANTS and self.is_module(d.split(".")[0]):
             return [], str_lit(EXTERNAL_CONSTANTS[d]), "str"
+        if self.fields and isinstance(e.value, ast.Name) and e.value.id == "self":
+            if e.attr not in self.fields:
+                self.refuse(e, "attribute self.%s is not a field of the record" % e.attr)
+            return [], "self_" + e.attr, self.fields[e.attr]
+        if isinstance(e.value, ast.Name) and e.value.id in CONST_OBJECTS and e.value.id not in self.ty:
+            return self.const_object_attr(e)
         if self.kind == "objmethod" and isinstance(e.value, ast.Name) and e.value.id == "self" \
                 and e.attr in self.spec["state"] and "self" not in self.ty:
             return [], self.spec["state"][e.attr][0], self.spec["state"][e.attr][1]
@@ -423,6 +589,56 @@ class FnTr:
             return p + ["do %s <- py_unwrap %s;" % (t1, v)], t1, "int"
         return p, v, t
 
+    def has_io(self, node):
+        """does evaluating node read from / write to the file"""
+        for n in ast.walk(node):
+            if isinstance(n, ast.Call):
+                if isinstance(n.func, ast.Attribute) and self.is_file(n.func.value):
+                    return True
+                if isinstance(n.func, ast.Name) and ((n.func.id in WHITELIST and WHITELIST[n.func.id][2] in ("reader", "writer"))
+                                                     or (n.func.id in WAVE2 and WAVE2[n.func.id]["kind"] in ("reader", "writer"))):
+                    return True
+        return False
+
+    def listcomp(self, e):
+        """[elt for x in range(..) / a list]  ->  for_m accumulating the list (and the input when elt reads the file)"""
+        if len(e.generators) != 1 or e.generators[0].ifs or e.generators[0].is_async:
+            self.refuse(e, "comprehension form")
+        g = e.generators[0]
+        it = g.iter
+        if isinstance(it, ast.Call) and isinstance(it.func, ast.Name) and it.func.id == "range" and len(it.args) == 1 \
+                and "range" not in self.local_names():
+            p, hi, t = self.expr(it.args[0])
+            if t != "int":
+                self.refuse(e, "range argument type")
+            pre, xs, elty = p, "(py_range 0 %s)" % hi, "int"
+        else:
+            p, v, t = self.expr(it)
+            if t == "boollist":
+                pre, xs, elty = p, v, "bool"
+            elif t.startswith("list:"):
+                pre, xs, elty = p, v, t[5:]
+            else:
+                self.refuse(e, "comprehension over " + t)
+        if not isinstance(g.target, ast.Name) or g.target.id in self.ty:
+            self.refuse(e, "comprehension target")
+        x = g.target.id
+        saved = dict(self.ty)
+        self.ty[x] = elty
+        io = self.io if self.has_io(e.elt) else None
+        if self.has_io(it):
+            self.refuse(e, "file access in the iterable of a comprehension")
+        pe, ve, te = self.expr(e.elt)
+        self.ty = saved
+        acc = self.fresh() + "acc"
+        st = "'(%s, %s)" % (acc, io) if io else acc
+        tup = "(%s ++ [%s], %s)" % (acc, ve, io) if io else "%s ++ [%s]" % (acc, ve)
+        nm = self.fresh()
+        lines = pre + ["do %ss <- for_m %s (fun %s %s =>" % (nm, xs, x, st)]
+        lines += ["    " + y for y in pe] + ["    Ok (%s, false)) %s;" % (tup, "([], %s)" % io if io else "[]")]
+        lines += ["let '(%s, %s) := %ss in" % (nm, io, nm)] if io else ["let %s := %ss in" % (nm, nm)]
+        return lines, nm, ("boollist" if te == "bool" else "list:" + te)
+
     def binop(self, e):
         pl, l, tl = self.unwrap(*self.expr(e.left))
         pr, r, tr = self.unwrap(*self.expr(e.right))
@@ -462,6 +678,10 @@ class FnTr:
             self.refuse(e, "chained comparison")
         pl, l, tl = self.expr(e.left)
         pr, r, tr = self.expr(e.comparators[0])
+        if isinstance(e.ops[0], (ast.Is, ast.IsNot)) and tr == "nonetype" and self.fields and not pl \
+                and tl in ("int", "bool", "bytes", "list:int", "boollist"):
+            # a record field / value of a non-optional type is never None
+            return [], ("false" if isinstance(e.ops[0], ast.Is) else "true"), "bool"
         if not isinstance(e.ops[0], (ast.Is, ast.IsNot)):
             pl, l, tl = self.unwrap(pl, l, tl)
             pr, r, tr = self.unwrap(pr, r, tr)
@@ -526,6 +746,9 @@ class FnTr:
         if tb == "list:str":
             t = self.fresh()
             return pb + pi + ["do %s <- py_index %s %s;" % (t, b, i)], t, "str"
+        if tb == "list:int" and self.module is not None:
+            t = self.fresh()
+            return pb + pi + ["do %s <- py_index %s %s;" % (t, b, i)], t, "int"
         self.refuse(e, "subscript of " + tb)
 
     def call(self, e):
@@ -533,7 +756,7 @@ class FnTr:
         args = e.args
         # file.read(n)
         if isinstance(f, ast.Attribute) and self.is_file(f.value):
-            if f.attr == "read" and self.kind == "reader" and len(args) == 1:
+            if f.attr == "read" and self.io == "inp" and len(args) == 1:
                 p, n, t = self.expr(args[0])
                 if t != "int":
                     self.refuse(e, "read size")
@@ -636,8 +859,12 @@ class FnTr:
             if t != "boollist" or ti != "bool":
                 self.refuse(e, "reduce types")
             return p + pi, "(%s %s %s)" % ("py_all" if args[0].id == "and_" else "py_any", i, v), "bool"
-        if fn in WHITELIST:
-            _, _, kind, argtys, retty = WHITELIST[fn]
+        if fn in WHITELIST or (self.module is not None and fn in WAVE2 and WAVE2[fn]["kind"] in ("reader", "writer", "pure")
+                               and WAVE2[fn]["file"] == self.spec.get("file") and fn not in self.local_names()):
+            if fn in WHITELIST:
+                _, _, kind, argtys, retty = WHITELIST[fn]
+            else:
+                kind, argtys, retty = WAVE2[fn]["kind"], WAVE2[fn]["args"], WAVE2[fn]["ret"]
             pre, vs = [], []
             cargs = list(args)
             if kind in ("reader", "writer"):
@@ -654,12 +881,12 @@ class FnTr:
                 vs.append(v)
             t1 = self.fresh()
             if kind == "reader":
-                if self.kind != "reader":
+                if self.io != "inp":
                     self.refuse(e, "reader call in non-reader")
                 return pre + ["do %s <- %s inp %s;" % (t1 + "r", fn, " ".join(vs)),
                               "let '(%s, inp) := %s in" % (t1, t1 + "r")], t1, retty
             if kind == "writer":
-                if self.kind != "writer":
+                if self.io != "out":
                     self.refuse(e, "writer call in non-writer")
                 return pre + ["do %s <- %s %s;" % (t1, fn, " ".join(vs)), "let out := out ++ %s in" % t1], "tt", "none"
             return pre + ["do %s <- %s %s;" % (t1, fn, " ".join(vs))], t1, retty
@@ -671,6 +898,13 @@ class FnTr:
         if e.keywords:
             self.refuse(e, "keyword arguments")
         d = self.dotted(f)
+        if d == "functools.reduce" and self.is_module("functools") and len(args) == 3 \
+                and self.dotted(args[0]) in ("operator.or_", "operator.and_") and self.is_module("operator"):
+            p, v, t = self.expr(args[1])
+            pi, i, ti = self.expr(args[2])
+            if t != "boollist" or ti != "bool":
+                self.refuse(e, "reduce types")
+            return p + pi, "(%s %s %s)" % ("py_all" if self.dotted(args[0]) == "operator.and_" else "py_any", i, v), "bool"
         if d == "pathlib.Path" and self.is_module("pathlib"):
             # pathlib.Path(s) / pathlib.Path(*segments): the path object whose raw segments are the arguments
             if len(args) == 1 and isinstance(args[0], ast.Starred):
@@ -898,22 +1132,33 @@ class FnTr:
                 if isinstance(c.func, ast.Attribute) and c.func.attr in ("append", "pop") and isinstance(c.func.value, ast.Name):
                     add(c.func.value.id)
                 if isinstance(c.func, ast.Attribute) and self.is_file(c.func.value):
-                    add("inp" if self.kind == "reader" else "out")
+                    add(self.io or "out")
+                if isinstance(c.func, ast.Attribute) and c.func.attr in ("append", "pop") and isinstance(c.func.value, ast.Attribute) \
+                        and isinstance(c.func.value.value, ast.Name) and c.func.value.value.id == "self" and self.fields:
+                    add("self_" + c.func.value.attr)
+            if isinstance(st, ast.Attribute) and isinstance(st.ctx, ast.Store) and isinstance(st.value, ast.Name) \
+                    and st.value.id == "self" and self.fields:
+                add("self_" + st.attr)
             if isinstance(st, ast.Call):
                 if isinstance(st.func, ast.Attribute) and self.is_file(st.func.value):
-                    add("inp" if self.kind == "reader" else "out")
+                    add(self.io or "out")
                 if isinstance(st.func, ast.Name) and st.func.id in WHITELIST and WHITELIST[st.func.id][2] in ("reader", "writer"):
-                    add("inp" if self.kind == "reader" else "out")
+                    add(self.io or "out")
+                if isinstance(st.func, ast.Name) and self.module is not None and st.func.id in WAVE2 \
+                        and WAVE2[st.func.id]["kind"] in ("reader", "writer"):
+                    add(self.io)
         return out
 
     def ret(self, val):
         if self.loops:
             self.loops[-1]["ret"] = True
             return ["RETURN " + val]
-        if self.kind == "reader":
+        if self.kind in ("reader", "objreader"):
             return ["Ok (%s, inp)" % val]
         if self.kind == "writer":
             return ["Ok out"]
+        if self.kind == "objwriter":
+            return ["Ok (%s, out)" % self.self_record()]
         if self.kind == "objmethod":
             return ["Ok (%s, (%s))" % (val, ", ".join(v for v, _ in self.spec["state"].values()))]
         return ["Ok %s" % val]
@@ -929,6 +1174,22 @@ class FnTr:
             return cont()  # docstring
         if isinstance(st, ast.Pass):
             return cont()
+        if self.fields and self.module is not None:
+            st = self.rewrite_self(st)
+        if self.module is not None:
+            lifted = self.lift_ifexp(st)
+            if lifted is not None:
+                return self.block([lifted] + rest, k)
+        if isinstance(st, ast.Assert) and self.module is not None and not self.loops:
+            # assert c : AssertionError when c is false (the message, if any, is not evaluated here)
+            p, c = self.test(st.test)
+            return p + ["if %s then" % c] + ["  " + x for x in cont()] + ["else", "Err EOther"]
+        if isinstance(st, ast.Return) and isinstance(st.value, ast.Call) and self.io == "out" and self.has_io(st.value) \
+                and self.module is not None:
+            # `return file.write(x)` / `return write_bytes(file, x)`: the value returned by a write is not modelled
+            p, v, t = self.expr(st.value) if not (isinstance(st.value.func, ast.Attribute) and self.is_file(st.value.func.value)) \
+                else self.file_write(st.value)
+            return p + self.ret("tt")
         if isinstance(st, ast.Return) and isinstance(st.value, ast.IfExp) and self.module is not None:
             # `return a if c else b`  ==  `if c: return a` / `else: return b`
             v = st.value
@@ -940,6 +1201,8 @@ class FnTr:
             if st.value is None:
                 return self.ret("tt")
             p, v, t = self.expr(st.value)
+            if self.kind == "objwriter":
+                self.refuse(st, "return of a value from a writer method")
             if self.module is not None and self.retty == "optint" and t == "int":
                 v, t = "(Some %s)" % v, "optint"
             if self.module is not None and self.retty == "optint" and t == "nonetype":
@@ -947,6 +1210,16 @@ class FnTr:
             if self.module is not None and t != self.retty:
                 self.refuse(st, "return of %s in a function returning %s" % (t, self.retty))
             return p + self.ret(v)
+        if isinstance(st, ast.AnnAssign) and self.module is not None and isinstance(st.target, ast.Name) \
+                and st.target.id.startswith("self_") and st.target.id[5:] in self.fields and st.value is not None:
+            # `self.x: T = v`: the annotation is checked against the record
+            ann = ast.unparse(st.annotation).replace("List", "list")
+            want = {"int": "int", "bool": "bool", "list[int]": "list:int", "list[bool]": "boollist", "bytes": "bytes"}.get(ann)
+            if want != self.fields[st.target.id[5:]]:
+                self.refuse(st, "annotation %s of a field of type %s" % (ann, self.fields[st.target.id[5:]]))
+            fake = ast.Assign(targets=[st.target], value=st.value)
+            ast.copy_location(fake, st)
+            return self.block([fake] + rest, k)
         if isinstance(st, ast.AnnAssign) and self.module is not None:
             # `x: list[str] = []`
             ann = ast.unparse(st.annotation).replace("List", "list")
@@ -960,6 +1233,15 @@ class FnTr:
                 self.refuse(st, "multi-target assign")
             tg = st.targets[0]
             p, v, t = self.expr(st.value)
+            if isinstance(tg, ast.Name) and tg.id.startswith("self_") and tg.id[5:] in self.fields:
+                ft = self.fields[tg.id[5:]]
+                if isinstance(st.value, ast.List) and not st.value.elts:
+                    t = ft
+                if t == "list:bool":
+                    t = "boollist"
+                if t != ft:
+                    self.refuse(st, "assignment of %s to the field %s : %s" % (t, tg.id[5:], ft))
+                return p + ["let %s := %s in" % (tg.id, v)] + cont()
             if isinstance(tg, ast.Name):
                 if self.module is not None and isinstance(st.value, ast.List) and not st.value.elts:
                     self.refuse(st, "empty list literal without annotation")
@@ -1009,7 +1291,7 @@ class FnTr:
                         return ["let %s : bytes := [] in" % sv] + cont()
                 self.refuse(st, "method self.%s.%s" % (c.func.value.attr, c.func.attr))
             if isinstance(c, ast.Call) and isinstance(c.func, ast.Attribute):
-                if self.is_file(c.func.value) and c.func.attr == "write" and self.kind == "writer" and len(c.args) == 1:
+                if self.is_file(c.func.value) and c.func.attr == "write" and self.io == "out" and len(c.args) == 1:
                     p, v, t = self.expr(c.args[0])
                     if t != "bytes":
                         self.refuse(st, "write of non-bytes")
@@ -1017,6 +1299,8 @@ class FnTr:
                 if c.func.attr == "append" and isinstance(c.func.value, ast.Name) and len(c.args) == 1:
                     n = c.func.value.id
                     p, v, t = self.expr(c.args[0])
+                    if self.module is not None and self.ty.get(n) == "boollist" and t == "bool":
+                        return p + ["let %s := %s ++ [%s] in" % (n, n, v)] + cont()
                     if self.module is not None and self.ty.get(n) != "list:" + t:
                         self.refuse(st, "append of %s to %s" % (t, self.ty.get(n)))
                     return p + ["let %s := %s ++ [%s] in" % (n, n, v)] + cont()
@@ -1045,6 +1329,43 @@ class FnTr:
             self.ty = dict(saved)
             return ["match %s with" % x.id, "| None =>"] + ["  " + y for y in a] + ["| Some %s =>" % x.id] + \
                 ["  " + y for y in b] + ["end"]
+        if isinstance(st, ast.If) and self.spec.get("join") and rest and not any(
+                isinstance(n, (ast.Return, ast.Break, ast.Continue)) for n in ast.walk(st)):
+            # both branches fall through (or raise): the statement is an expression that yields the variables it assigns,
+            # and the continuation is emitted once
+            p, c = self.test(st.test)
+            saved = dict(self.ty)
+            names = self.assigned([st])
+            tmp0 = self.tmp
+            self.block(st.body, lambda: [])
+            ty_a = dict(self.ty)
+            self.ty = dict(saved)
+            self.block(st.orelse, lambda: [])
+            ty_b = dict(self.ty)
+            self.ty = dict(saved)
+            self.tmp = tmp0      # the two passes above only computed the types
+            joined = [v for v in names if v in (self.io,) or v in saved or (v in ty_a and v in ty_b)]
+            for v in joined:
+                if v != self.io and v not in saved and ty_a[v] != ty_b[v]:
+                    self.refuse(st, "variable %s gets different types in the branches" % v)
+            tup = "tt" if not joined else joined[0] if len(joined) == 1 else "(%s)" % ", ".join(joined)
+            a = self.block(st.body, lambda: ["Ok %s" % tup])
+            self.ty = dict(saved)
+            b = self.block(st.orelse, lambda: ["Ok %s" % tup])
+            self.ty = dict(saved)
+            for v in joined:
+                if v != self.io and v not in saved:
+                    self.ty[v] = ty_a[v]
+            j = self.fresh() + "j"
+            lines = p + ["do %s <- (if %s then" % (j, c)] + ["    " + x for x in a] + ["  else"] + ["    " + x for x in b]
+            lines[-1] += ");"
+            if not joined:
+                pass
+            elif len(joined) == 1:
+                lines.append("let %s := %s in" % (joined[0], j))
+            else:
+                lines.append("let '(%s) := %s in" % (", ".join(joined), j))
+            return lines + cont()
         if isinstance(st, ast.If):
             p, c = self.test(st.test)
             # the continuation is duplicated into both branches (functions are small)
@@ -1060,10 +1381,23 @@ class FnTr:
             # raise E(...) : the function ends with Err (the arguments of the exception are not evaluated here: they must
             # be effect-free names / constants)
             x = st.exc
+
+            def harmless(a):
+                """an exception argument whose evaluation has no effect and cannot raise (names, constants, %-formatting
+                and repr/str of such)"""
+                if isinstance(a, (ast.Name, ast.Constant)):
+                    return True
+                if isinstance(a, ast.BinOp) and isinstance(a.op, ast.Mod) and isinstance(a.left, ast.Constant) \
+                        and isinstance(a.left.value, str) and a.left.value.count("%") == 1 and "%s" in a.left.value:
+                    return harmless(a.right)
+                if isinstance(a, ast.Call) and isinstance(a.func, ast.Name) and a.func.id in ("repr", "str") and len(a.args) == 1 \
+                        and not a.keywords and a.func.id not in self.local_names():
+                    return isinstance(a.args[0], (ast.Name, ast.Constant))
+                return False
             if st.cause is not None or not (isinstance(x, ast.Call) and isinstance(x.func, ast.Name)
-                                            and all(isinstance(a, (ast.Name, ast.Constant)) for a in x.args) and not x.keywords):
+                                            and all(harmless(a) for a in x.args) and not x.keywords):
                 self.refuse(st, "raise form")
-            return ["Err EOther"]
+            return ["Err %s" % EXC_ERR.get(x.func.id, "EOther")]
         if isinstance(st, ast.For):
             return self.forloop(st, cont)
         if isinstance(st, ast.While) and self.module is not None:
@@ -1073,6 +1407,43 @@ class FnTr:
         if isinstance(st, ast.Continue):
             return ["CONTINUE"]
         self.refuse(st, "statement")
+
+    def file_write(self, c):
+        p, v, t = self.expr(c.args[0]) if len(c.args) == 1 and not c.keywords and c.func.attr == "write" else self.refuse(c, "file method")
+        if t != "bytes":
+            self.refuse(c, "write of non-bytes")
+        return p + ["let out := out ++ %s in" % v], "tt", "none"
+
+    def rewrite_self(self, st):
+        """in a method over a record: self.x -> the local variable self_x (one statement, not its nested blocks' copies)"""
+        fields = self.fields
+
+        class T(ast.NodeTransformer):
+            def visit_Attribute(tr, n):
+                if isinstance(n.value, ast.Name) and n.value.id == "self" and n.attr in fields:
+                    return ast.copy_location(ast.Name(id="self_" + n.attr, ctx=n.ctx), n)
+                return tr.generic_visit(n)
+        import copy
+        return ast.fix_missing_locations(T().visit(copy.deepcopy(st)))
+
+    def lift_ifexp(self, st):
+        """`x.append(a if c else b)` / `v = a if c else b` with an effect-free test -> an if statement"""
+        def split(mk, ife):
+            if self.has_io(ife.test) or any(isinstance(n, ast.Call) for n in ast.walk(ife.test)):
+                self.refuse(st, "conditional expression with a test that is not a plain expression")
+            a, b = mk(ife.body), mk(ife.orelse)
+            new = ast.If(test=ife.test, body=[a], orelse=[b])
+            for n in (new, a, b):
+                ast.copy_location(n, st)
+            return ast.fix_missing_locations(new)
+        if isinstance(st, ast.Expr) and isinstance(st.value, ast.Call) and isinstance(st.value.func, ast.Attribute) \
+                and st.value.func.attr == "append" and len(st.value.args) == 1 and isinstance(st.value.args[0], ast.IfExp) \
+                and isinstance(st.value.func.value, ast.Name):
+            c = st.value
+            return split(lambda v: ast.Expr(value=ast.Call(func=c.func, args=[v], keywords=[])), c.args[0])
+        if isinstance(st, ast.Assign) and len(st.targets) == 1 and isinstance(st.targets[0], ast.Name) and isinstance(st.value, ast.IfExp):
+            return split(lambda v: ast.Assign(targets=st.targets, value=v), st.value)
+        return None
 
     def whileloop(self, st, cont):
         """while c: body  ->  while_m fuel (fun state => c) (fun state => body) state   (Err EFuel when the fuel runs out)"""
@@ -1209,6 +1580,28 @@ class FnTr:
         if self.kind in ("reader", "writer"):
             self.filevar = params[0]
             params = params[1:]
+        if self.kind in ("objreader", "objwriter"):
+            if len(params) < 2 or params[0] != "self":
+                self.refuse(node, "method signature")
+            self.filevar = params[1]
+            params = params[2:]
+            for n in self.local_names():
+                if n.startswith("self_") or n in ("inp", "out"):
+                    self.refuse(node, "a variable named " + n)
+            ini = init_fields(self.module, self.spec["cls"])
+            for f in self.fields:
+                if f in ini:
+                    continue
+                uses = sorted(((n.lineno, n.col_offset, isinstance(n.ctx, ast.Store)) for n in ast.walk(node)
+                               if isinstance(n, ast.Attribute) and n.attr == f and isinstance(n.value, ast.Name) and n.value.id == "self"))
+                first_store = [st for st in node.body if isinstance(st, (ast.Assign, ast.AnnAssign))
+                               and any(isinstance(t, ast.Attribute) and t.attr == f for t in
+                                       (st.targets if isinstance(st, ast.Assign) else [st.target]))]
+                if uses and not (uses[0][2] and first_store and first_store[0].lineno == uses[0][0]):
+                    self.refuse(node, "field %s is not set by __init__ and may be read before it is assigned" % f)
+            for n in ast.walk(node):
+                if isinstance(n, ast.Name) and n.id == "self" and not isinstance(getattr(n, "ctx", None), ast.Load):
+                    self.refuse(node, "self is rebound")
         if self.kind in ("method", "objmethod"):
             if not params or params[0] != "self":
                 self.refuse(node, "method without self")
@@ -1228,7 +1621,19 @@ class FnTr:
             if "fuel" in self.ty:
                 self.refuse(node, "a variable named fuel")
             sig = "(fuel : nat) " + sig
-        if self.kind == "reader":
+        if self.kind in ("objreader", "objwriter"):
+            cls = self.spec["cls"]
+            for f, t in self.fields.items():
+                self.ty["self_" + f] = t
+            unpack = "\n".join("  let self_%s := %s_%s self in" % (f, cls, f) for f in self.fields)
+            if self.kind == "objreader":
+                rt = cls if self.retty == "self" else coq_ty(self.retty)
+                head = "Definition %s (self : %s) (inp : bytes) %s : res (%s * bytes) :=\n%s" % (
+                    self.spec["coqname"], cls, sig, rt, unpack)
+            else:
+                head = "Definition %s (self : %s) %s : res (%s * bytes) :=\n%s\n  let out : bytes := [] in" % (
+                    self.spec["coqname"], cls, sig, cls, unpack)
+        elif self.kind == "reader":
             head = "Definition %s (inp : bytes) %s : res (%s * bytes) :=" % (self.name, sig, coq_ty(self.retty))
         elif self.kind == "writer":
             head = "Definition %s %s : res bytes :=\n  let out : bytes := [] in" % (self.name, sig)
@@ -1288,9 +1693,24 @@ def placeholder(name, spec):
                    + list(spec.get("state", {}).values()) + list(spec["args"].items()))
     if spec.get("fuel"):
         sig = "(fuel : nat) " + sig
-    rt = coq_ty(spec["ret"])
+    rt = coq_ty(spec["ret"]) if spec["ret"] in COQ_TY else "unit"
     if spec["kind"] == "objmethod":
         rt = "(%s * (%s))" % (rt, " * ".join(coq_ty(t) for _, t in spec["state"].values()))
+    if spec["kind"] in ("objreader", "retrieve"):
+        cls = spec["cls"]
+        ret = cls if spec["ret"] in ("self", cls) else coq_ty(spec["ret"])
+        first = "(self : %s) " % cls if spec["kind"] == "objreader" else ""
+        return "Definition %s %s(inp : bytes) %s : res (%s * bytes) :=\n  Err EOther." % (spec["coqname"], first, sig, ret)
+    if spec["kind"] == "objwriter":
+        return "Definition %s (self : %s) %s : res (%s * bytes) :=\n  Err EOther." % (spec["coqname"], spec["cls"], sig, spec["cls"])
+    if spec["kind"] == "init":
+        cls = spec["cls"]
+        return "%s\nDefinition %s : %s := mk%s %s." % (record_text(cls), spec["coqname"], cls, cls,
+                                                      " ".join(DEFAULT_VALUE[t] for t in CLASSES3[cls].values()))
+    if spec["kind"] == "reader":
+        return "Definition %s (inp : bytes) %s : res (%s * bytes) :=\n  Err EOther." % (name, sig, rt)
+    if spec["kind"] == "writer":
+        return "Definition %s %s : res bytes :=\n  Err EOther." % (name, sig)
     return "Definition %s %s : res %s :=\n  Err EOther." % (spec.get("coqname", name.split(".")[-1]), sig,
                                                            "(%s)" % rt if " " in rt and not rt.startswith("(") else rt)
 
@@ -1343,8 +1763,14 @@ def main():
                 if node is None:
                     raise Refused("%s: not found in %s" % (qual, fname))
                 seg = ast.get_source_segment(srcs[fname], node)
-                tr = FnTr(name, node, spec["kind"], spec["args"], spec["ret"], module=tree, spec=spec)
-                text = tr.translate()
+                spec = dict(spec, _repo=repo)
+                if spec["kind"] == "init":
+                    text = init_text(tree, spec["cls"], spec)
+                elif spec["kind"] == "retrieve":
+                    text = retrieve_text(tree, spec["cls"], spec)
+                else:
+                    tr = FnTr(name, node, spec["kind"], spec["args"], spec["ret"], module=tree, spec=spec)
+                    text = tr.translate()
                 chunks.append("(* %s:%d %s *)\n%s\n" % (fname, node.lineno, qual, text))
                 report["translated"][name] = {
                     "source": "%s:%d" % (fname, node.lineno),
